@@ -934,6 +934,79 @@ class _Builder:
             return UNKNOWN
         return UNKNOWN
 
+    def const_call(self, call, depth=0):
+        """Constant result of a call of a small module-level function / static
+        helper whose outcome is decided by the constant arguments (a parameter
+        normaliser such as `"topological" -> None`): its ifs are decided under
+        the bound constants and every reached `return` yields a constant."""
+        callee = None
+        if isinstance(call.func, ast.Name):
+            r = self.p.resolve_name(self.f.module, call.func.id)
+            if r and r[0] == "func":
+                callee = r[1]
+        elif isinstance(call.func, ast.Attribute) and isinstance(call.func.value, ast.Name) \
+                and self.cls is not None and (
+                    self.is_self(call.func.value) or
+                    call.func.value.id in {c.name for c in self.cls.mro}):
+            callee = self.p.lookup(self.cls, call.func.attr)
+        if callee is None or depth > 2 or not isinstance(callee.node, ast.FunctionDef):
+            return UNKNOWN
+        a = callee.node.args
+        if a.vararg or a.kwarg or any(isinstance(x, ast.Starred) for x in call.args) or \
+                any(k.arg is None for k in call.keywords):
+            return UNKNOWN
+        params = [x.arg for x in a.posonlyargs + a.args]
+        if params and params[0] in ("self", "cls") and isinstance(call.func, ast.Attribute):
+            params = params[1:]
+        if len(call.args) > len(params):
+            return UNKNOWN
+        env = {}
+        dflt = dict(zip([x.arg for x in (a.posonlyargs + a.args)][-len(a.defaults):],
+                        a.defaults)) if a.defaults else {}
+        for pn, d in dflt.items():
+            c = const_of(d, {})
+            if c is not UNKNOWN:
+                env[pn] = c
+        for pn, v in list(zip(params, call.args)) + [(k.arg, k.value)
+                                                     for k in call.keywords]:
+            c = const_of(v, self.env)
+            if c is UNKNOWN:
+                env.pop(pn, None)
+            else:
+                env[pn] = c
+        sub = _Builder(self.p, callee, callee.cls, env, False)
+
+        def run(stmts):
+            for st in stmts:
+                if isinstance(st, (ast.Expr, ast.Pass)):
+                    continue             # docstring / print: no value
+                if isinstance(st, ast.If):
+                    t = sub.truth(st.test)
+                    if t is UNKNOWN:
+                        return ("unknown",)
+                    r = run(st.body if t else st.orelse)
+                    if r[0] != "fall":
+                        return r
+                    continue
+                if isinstance(st, ast.Return):
+                    c = const_of(st.value, sub.env) if st.value is not None else None
+                    return ("ret", c) if c is not UNKNOWN else ("unknown",)
+                if isinstance(st, ast.Assign) and len(st.targets) == 1 and \
+                        isinstance(st.targets[0], ast.Name):
+                    c = const_of(st.value, sub.env)
+                    if c is UNKNOWN:
+                        return ("unknown",)
+                    sub.env[st.targets[0].id] = c
+                    continue
+                return ("unknown",)
+            return ("fall",)
+        r = run(callee.node.body)
+        if r[0] == "ret":
+            return r[1]
+        if r[0] == "fall":
+            return None
+        return UNKNOWN
+
     # -- statements
     def stmt(self, st):
         if isinstance(st, ast.Expr):
@@ -1126,6 +1199,8 @@ class _Builder:
             self.aliases.pop(target.id, None)
             self.objalias.pop(target.id, None)
             c = const_of(value, self.env) if value is not None else UNKNOWN
+            if c is UNKNOWN and isinstance(value, ast.Call):
+                c = self.const_call(value)
             if c is not UNKNOWN and isinstance(c, _HASHABLE_CONST):
                 self.env[target.id] = c
             else:
